@@ -32,7 +32,7 @@ class P:
         g = G.Gen(rnd)
         g.with_comments = True
         srcs += [g.program(rnd.choice([1, 2, 3])) for _ in range(600 if tier == "quick" else 8000)]
-        srcs += G.heredoc_corpus()
+        srcs += G.heredoc_corpus() + G.arith_corpus()
         down = [hx(s) for s in srcs]
         alpha = ["a", "1", "x", "*", "?", "[", "]", "!", "^", "-", "\\", ".", "/", "(", ")", "+", "=", " ", "\n", "é", "\xff", "$", "~", ":", "<", ">", "&", "|", "%", "0x", "08"]
         strs = ["".join(t).encode("latin-1", "replace") if False else "".join(t) for t in itertools.product(alpha, repeat=1)]
